@@ -22,6 +22,7 @@ SUB = "toplink"
 
 PART_OPS = ["partition", "partition_oneway", "repair", "repair_oneway"]
 HOLD_OPS = ["hold", "release"]
+HOLD_REPAIR_OPS = ["hold", "release", "repair"]   # Sim::repair on a held link leaves the held messages parked
 
 PROP_INVS = {
     "C03": ["Wellformed", "NoDeliveryAcrossExplicit", "FlowsWhenNotPartitioned"],
@@ -60,6 +61,8 @@ def mc_configs(pid, tier):
             ("mc_hold", base_consts(GMax=2, CtlOps=set(HOLD_OPS), HostCtlOps=set(HOLD_OPS), AllowManual=True,
                                     MaxMsgs=3, MaxSteps=4 if not q else 3, MaxCtl=3)),
         ]
+        cfgs.append(("mc_hold_repair", base_consts(GMax=1, CtlOps=set(HOLD_REPAIR_OPS), HostCtlOps=set(), AllowManual=False,
+                                                   MaxMsgs=2, MaxSteps=4 if not q else 3, MaxCtl=3)))
         if not q:
             cfgs.append(("mc_hold_3hosts", base_consts(N=3, GMax=1, CtlOps=set(HOLD_OPS), HostCtlOps={"release"},
                                                        AllowManual=True, MaxMsgs=2, MaxSteps=3, MaxCtl=2)))
@@ -94,6 +97,8 @@ def gen_configs(pid, tier):
     if pid == "C08":
         cfgs = [("gen_hold", base_consts(GMin=1, GMax=1, LatChoices={3}, CtlOps=set(HOLD_OPS), HostCtlOps={"release"},
                                          AllowManual=True, MaxMsgs=2, MaxSteps=3, MaxCtl=2, MaxLatCtl=1))]
+        cfgs.append(("gen_hold_repair", base_consts(GMin=1, GMax=1, LatChoices=set(), CtlOps=set(HOLD_REPAIR_OPS), HostCtlOps=set(),
+                                                    AllowManual=False, MaxMsgs=2, MaxSteps=3, MaxCtl=3, MaxLatCtl=0)))
         if not q:
             cfgs.append(("gen_hold_3msg", base_consts(GMin=0, GMax=0, LatChoices=set(), CtlOps=set(HOLD_OPS), HostCtlOps={"hold"},
                                                       AllowManual=True, MaxMsgs=3, MaxSteps=3, MaxCtl=3, MaxLatCtl=0)))
